@@ -245,6 +245,51 @@ def run(ck, only=None):
             ck.nontriv(jid)
             judge(ck, f"depth family={name} depth={d}", {"kind": "depth", "family": name, "depth": int(d)}, res[jid], acc, msg)
 
+    # ---- (v) calling-convention and type attributes in every declarator position -------
+    if not only or only.get("kind") == "attr":
+        ccs = ["cdecl", "stdcall", "fastcall", "thiscall", "vectorcall", "pascal", "ms_abi", "sysv_abi", "regcall", "preserve_most", "preserve_all",
+               "swiftcall", "intel_ocl_bicc", 'pcs("aapcs")', 'pcs("aapcs-vfp")', "aarch64_vector_pcs", "noreturn", "nothrow", "pure", "const", "warn_unused_result",
+               "naked", "weak", 'alias("x")', "always_inline", "noinline", "cold", "hot", "malloc", "returns_twice", "nonnull", "used", "unused", "deprecated",
+               'section("s")', 'visibility("hidden")', "no_caller_saved_registers", "interrupt", "ifunc(\"r\")", "constructor", "destructor", "format(printf, 1, 2)",
+               "sentinel", "overloadable", "flatten", "artificial", "gnu_inline", "nodebug", "minsize", "optnone", "no_split_stack", "leaf"]
+        shapes = {"function": "void __attribute__((@A@)) f(int a, ...);\nint ok_after;\n",
+                  "function-def-inline": "static inline int __attribute__((@A@)) g(int a) { return a; }\nint ok_after;\n",
+                  "fnptr-typedef": "typedef int (__attribute__((@A@)) *fp_t)(int);\nstruct S { char c; fp_t f; int after; };\nint use(fp_t p);\n",
+                  "fnptr-member": "struct S { int (__attribute__((@A@)) *m)(int, char); int after; };\n",
+                  "fnptr-param": "int take(int (__attribute__((@A@)) *cb)(int), int n);\n",
+                  "fn-typedef": "typedef int __attribute__((@A@)) fn_t(int);\nfn_t declared_through_typedef;\nstruct H { fn_t *p; };\n",
+                  "method.hpp": "struct C { int __attribute__((@A@)) m(int); static void __attribute__((@A@)) s(); int v; };\n"}
+        rows = [("default", []), ("rust160", ["--rust-target", "1.60"]), ("i686", ["--", "--target=i686-unknown-linux-gnu"]),
+                ("inline+wrap", ["--generate-inline-functions"])]
+        if ck.tier != "thorough":
+            rows = rows[:2] + [rows[2 + ck.seed % 2]]
+        jobs, info = [], {}
+        for ai, a in enumerate(ccs):
+            for sname, text in shapes.items():
+                ext = ".hpp" if sname.endswith(".hpp") else ".h"
+                p = os.path.join(wd, f"attr_{ai}_{sname.replace('.hpp', '')}{ext}")
+                open(p, "w").write(text.replace("@A@", a))
+                for rname, fl in rows:
+                    if only and (only.get("attr") != a or only.get("shape") != sname or only.get("row") != rname):
+                        continue
+                    pre = [x for x in fl if "--" not in fl or fl.index(x) < fl.index("--")]
+                    post = fl[fl.index("--") + 1:] if "--" in fl else []
+                    cargs = post + (["-x", "c++", "-std=c++14"] if ext == ".hpp" else [])
+                    jid = f"a|{ai}|{sname}|{rname}"
+                    jobs.append({"id": jid, "args": [p] + pre + (["--"] + cargs if cargs else []), "text": False, "timeout": 60})
+                    info[jid] = (p, a, sname, rname, cargs)
+        res = common.run_jobs(jobs, wd, timeout=60)
+        klass = dict(common.pmap(lambda jid: (jid, classify(info[jid][0], info[jid][4], wd)), list(info)))
+        nacc = 0
+        for jid, (p, a, sname, rname, cargs) in info.items():
+            acc, msg = klass[jid]
+            nacc += acc is True
+            ck.count()
+            ck.nontriv(jid)
+            judge(ck, f"attribute {a} shape={sname} row={rname}", {"kind": "attr", "attr": a, "shape": sname, "row": rname}, res[jid], acc, msg)
+        ck.extra["attribute_cases"] = len(info)
+        ck.extra["attribute_cases_accepted_by_clang"] = nacc
+
     # ---- (iii) option rows on repository headers -----------------------------------
     if not only or only.get("kind") == "option":
         rows = [r for r in c13.rows() if r["name"] not in ("represent-cxx-operators", "use-distinct-char16-t")]
